@@ -1,7 +1,7 @@
 //! C12: ratio and chunk-size controls accept exactly the documented ranges.
 //!
 //! An argument lattice (exact bounds, their floating-point neighbours, specials) is applied in
-//! three states (fresh, ramp pending, after reset) of every asynchronous type; verdicts are
+//! three states (fresh, ramp pending, after reset, after an earlier chunk-size and ratio change) of every asynchronous type; verdicts are
 //! compared with an oracle in exact rational arithmetic on the f64 operands.
 
 use crate::cfg::{Cfg, Degree, Interp, Kernel, Kind};
@@ -190,6 +190,9 @@ fn prefixes(m: f64) -> Vec<Vec<Op>> {
         vec![],
         vec![Op::P, Op::R(hi, true)],
         vec![Op::P, Op::R(hi, true), Op::P, Op::Z],
+        // after earlier accepted changes: chunk size shrunk (ignored by the types that cannot),
+        // ratio moved to the lower end of its range
+        vec![Op::C(1), Op::P, Op::R(1.0 / m, false), Op::P],
     ]
 }
 
@@ -511,7 +514,7 @@ impl Check for C12 {
         let mr: u64 = items.iter().map(|v| v["extra"]["must_reject"].as_u64().unwrap_or(0)).sum();
         cov.insert("ratio_arguments_oracle_must_accept".into(), json!(ma));
         cov.insert("ratio_arguments_oracle_must_reject".into(), json!(mr));
-        cov.insert("states_note".into(), json!("states = (configuration, reached state) pairs in which the whole argument lattice was applied: fresh, ramp pending, after reset"));
+        cov.insert("states_note".into(), json!("states = (configuration, reached state) pairs in which the whole argument lattice was applied: fresh, ramp pending, after reset, after an earlier chunk-size and ratio change"));
     }
     fn replay(&self, replay: &Value) -> Result<(bool, String), String> {
         let cfg = Cfg::from_json(&replay["cfg"])?;
@@ -540,7 +543,7 @@ impl Check for C12 {
         Ok((!acc.found.is_empty(), log))
     }
     fn rule(&self, _tier: Tier) -> String {
-        "for every (original ratio, max relative ratio) pair of the lattice x 4 asynchronous types x 3 reached states: the four bounds computed as a caller would, each +-1 and +-2 ulp, interior points and specials (NaN, +-inf, +-0, -1, MIN_POSITIVE, subnormal, MAX), ramp on/off, through both setters; every chunk size 0..=max+2 and usize extremes; synchronous types separately. A case is one executed setter call; distinct = distinct (type, oracle verdict, result) classes".into()
+        "for every (original ratio, max relative ratio) pair of the lattice x 4 asynchronous types x 4 reached states: the four bounds computed as a caller would, each +-1 and +-2 ulp, interior points and specials (NaN, +-inf, +-0, -1, MIN_POSITIVE, subnormal, MAX), ramp on/off, through both setters; every chunk size 0..=max+2 and usize extremes; synchronous types separately. A case is one executed setter call; distinct = distinct (type, oracle verdict, result) classes".into()
     }
     fn assumptions(&self) -> Vec<String> {
         vec![
